@@ -163,7 +163,7 @@ func (m *Machine) nodeKindForTag(n *Node, tag int) *smt.Term {
 	case TagString:
 		return c.Int(int64(reflect.String))
 	case TagArray:
-		return c.Int(int64(reflect.Slice))
+		return m.simp(c.Ite(c.Eq(n.CRep, c.Int(CRepAlt)), c.Int(int64(reflect.Array)), c.Int(int64(reflect.Slice))))
 	case TagObject:
 		return c.Int(int64(reflect.Map))
 	}
@@ -225,7 +225,23 @@ func (m *Machine) numRepTerm(n *Node, pred func(int) bool) *smt.Term {
 	return m.simp(c.And(n.TagIs(TagNumber), n.repIn(pred)))
 }
 
-// nodeGoType returns the concrete Go type of the node's value on this path, forking on tag and rep.
+// nodeWrap returns the number of pointer layers around n's value on this path.
+func (m *Machine) nodeWrap(n *Node) int {
+	if n.Wrap.Op == smt.OpConst {
+		return 0
+	}
+	return int(asInt64(m.concretize(SymInt{n.Wrap}, "node-wrap")))
+}
+
+func (m *Machine) nodeCRep(n *Node) int {
+	if n.CRep.Op == smt.OpConst {
+		return 0
+	}
+	return int(asInt64(m.concretize(SymInt{n.CRep}, "node-crep")))
+}
+
+// nodeGoType returns the concrete Go type of the node's value (without wrappers) on
+// this path, forking on tag and representation selectors.
 func (m *Machine) nodeGoType(n *Node) types.Type {
 	tag := int(asInt64(m.concretize(SymInt{n.Tag}, "node-type-tag")))
 	switch tag {
@@ -234,10 +250,26 @@ func (m *Machine) nodeGoType(n *Node) types.Type {
 	case TagBool:
 		return types.Typ[types.Bool]
 	case TagString:
+		if m.nodeCRep(n) == CRepTyped {
+			return n.Tm.StrT
+		}
 		return types.Typ[types.String]
 	case TagArray:
+		switch m.nodeCRep(n) {
+		case CRepTyped:
+			return types.NewSlice(m.nodeElemType(n.Elem(0)))
+		case CRepAlt:
+			l := asInt64(m.concretize(SymInt{n.Len}, "node-type-len"))
+			return types.NewArray(m.P.AnyT(), l)
+		}
 		return types.NewSlice(m.P.AnyT())
 	case TagObject:
+		switch m.nodeCRep(n) {
+		case CRepTyped:
+			return types.NewMap(types.Typ[types.String], m.nodeElemType(n.Val(0)))
+		case CRepAlt:
+			return types.NewMap(n.Tm.KeyT, m.P.AnyT())
+		}
 		return types.NewMap(types.Typ[types.String], m.P.AnyT())
 	}
 	rep := int(asInt64(m.concretize(SymInt{n.Rep}, "node-type-rep")))
@@ -245,6 +277,15 @@ func (m *Machine) nodeGoType(n *Node) types.Type {
 		return m.P.ImportedType("encoding/json", "Number")
 	}
 	return types.Typ[repKinds[rep]]
+}
+
+// nodeElemType returns the element type of a typed container whose first child is first.
+func (m *Machine) nodeElemType(first *Node) types.Type {
+	t := m.nodeGoType(first)
+	if t == nil {
+		panic(abort{kind: abortInfeasible, msg: "typed container with null element"})
+	}
+	return t
 }
 
 func (p *Program) AnyT() types.Type { return types.Universe.Lookup("any").Type() }
@@ -260,7 +301,11 @@ func registerReflect(p *Program) {
 			return mkRV(nil)
 		}
 		if x.T == p.NodeT {
-			return mkRV(&RV{N: x.V.(*Node)})
+			if in, ok := x.V.(NodeInner); ok {
+				return mkRV(&RV{N: in.N})
+			}
+			n := x.V.(*Node)
+			return mkRV(&RV{N: n, Ptr: m.nodeWrap(n)})
 		}
 		return mkRV(&RV{T: x.T, V: x.V})
 	}
@@ -296,11 +341,14 @@ func registerReflect(p *Program) {
 			rpanic("Elem", "zero Value")
 		}
 		if rv.N != nil {
-			if rv.Ptr > 0 {
-				return mkRV(&RV{N: rv.N, Ptr: rv.Ptr - 1, Wrapped: rv.Wrapped})
-			}
 			if rv.Wrapped {
-				return mkRV(&RV{N: rv.N})
+				return mkRV(&RV{N: rv.N, Ptr: m.nodeWrap(rv.N)})
+			}
+			if rv.Ptr > 0 {
+				if rv.Ptr == 1 && m.Branch(m.nodeTagIn(rv.N, TagNull), "reflect.Elem.nilptr") {
+					return mkRV(nil) // typed nil pointer
+				}
+				return mkRV(&RV{N: rv.N, Ptr: rv.Ptr - 1})
 			}
 			// Elem on a non-interface, non-pointer kind panics in real reflect.
 			m.require(m.Ctx.False, "Elem", "non-pointer non-interface Value")
@@ -531,17 +579,24 @@ func registerReflect(p *Program) {
 			panic(targetPanic{v: "reflect.Value.Interface: cannot return value obtained from unexported field or method", what: "reflect"})
 		}
 		if rv.N != nil {
-			if rv.Ptr > 0 {
-				unsupported("Interface() of pointer-wrapped node")
-			}
+			w := m.nodeWrap(rv.N)
 			if rv.Wrapped {
-				if m.Branch(m.nodeTagIn(rv.N, TagNull), "reflect.Interface.nil") {
+				if w == 0 && m.Branch(m.nodeTagIn(rv.N, TagNull), "reflect.Interface.nil") {
 					return Iface{}
 				}
 				return Iface{T: p.NodeT, V: rv.N}
 			}
+			if rv.Ptr > 0 {
+				if rv.Ptr == w {
+					return Iface{T: p.NodeT, V: rv.N}
+				}
+				unsupported("Interface() of partially unwrapped node")
+			}
 			m.require(m.simp(m.Ctx.Not(rv.N.TagIs(TagNull))), "Interface", "zero Value")
-			return Iface{T: p.NodeT, V: rv.N}
+			if w == 0 {
+				return Iface{T: p.NodeT, V: rv.N}
+			}
+			return Iface{T: p.NodeT, V: NodeInner{rv.N}}
 		}
 		if _, ok := rv.T.Underlying().(*types.Interface); ok {
 			return rv.val()
@@ -555,13 +610,16 @@ func registerReflect(p *Program) {
 			rpanic("IsNil", "zero Value")
 		}
 		if rv.N != nil {
-			if rv.Ptr > 0 {
-				return false
-			}
 			if rv.Wrapped {
+				// an interface holding a typed nil pointer is not nil
+				return unTerm(m.simp(m.Ctx.And(rv.N.TagIs(TagNull), m.Ctx.Eq(rv.N.Wrap, m.Ctx.Int(0)))))
+			}
+			if rv.Ptr > 0 {
 				return unTerm(m.nodeTagIn(rv.N, TagNull))
 			}
-			m.require(m.nodeTagIn(rv.N, TagArray, TagObject), "IsNil", "non-nilable Value")
+			c := m.Ctx
+			ok := c.Or(rv.N.TagIs(TagObject), c.And(rv.N.TagIs(TagArray), c.Ne(rv.N.CRep, c.Int(CRepAlt))))
+			m.require(m.simp(ok), "IsNil", "non-nilable Value")
 			return false
 		}
 		switch v := rv.val().(type) {
@@ -764,7 +822,10 @@ func registerReflect(p *Program) {
 			if rv.Wrapped {
 				rpanic("UnsafePointer", "interface Value")
 			}
-			// distinct containers in a JSON-shaped instance never alias
+			// distinct containers and pointees in a JSON-shaped instance never alias
+			if rv.Ptr > 0 {
+				return &Native{Kind: "uptr", Obj: [2]any{rv.N, rv.Ptr}}
+			}
 			return &Native{Kind: "uptr", Obj: rv.N}
 		}
 		switch v := rv.val().(type) {
@@ -829,11 +890,17 @@ func (m *Machine) rindex(idx Value, n int) int {
 
 // childRV returns the Value that Index/MapIndex yields for child under parent.
 func (m *Machine) childRV(parent, child *Node) *RV {
+	if parent.CRep.Op != smt.OpConst && m.Branch(m.simp(parent.TypedContainer()), "reflect.child.typed") {
+		return &RV{N: child}
+	}
 	return &RV{N: child, Wrapped: true}
 }
 
-// nodeKeyType returns the key type of a symbolic object (string unless a named-key representation is selected).
+// nodeKeyType returns the key type of a symbolic object (string unless the named-key representation is selected).
 func (m *Machine) nodeKeyType(n *Node) types.Type {
+	if n.CRep.Op != smt.OpConst && m.Branch(m.simp(m.Ctx.Eq(n.CRep, m.Ctx.Int(CRepAlt))), "reflect.keytype") {
+		return n.Tm.KeyT
+	}
 	return types.Typ[types.String]
 }
 
@@ -915,9 +982,24 @@ func (m *Machine) isZero(t types.Type, v Value) Value {
 	return nil
 }
 
+// NodeInner is the payload of an interface that holds a node's value without its pointer layers.
+type NodeInner struct{ N *Node }
+
 // nodeTypeAssert implements x.(T) for an interface holding a symbolic node.
 func (m *Machine) nodeTypeAssert(itf Iface, asserted types.Type) (bool, Value) {
-	n := itf.V.(*Node)
+	var n *Node
+	if in, ok := itf.V.(NodeInner); ok {
+		n = in.N
+	} else {
+		n = itf.V.(*Node)
+		if m.nodeWrap(n) > 0 {
+			// dynamic type is a pointer type
+			if _, isIface := asserted.Underlying().(*types.Interface); isIface && asserted.Underlying().(*types.Interface).NumMethods() == 0 {
+				return true, itf
+			}
+			return false, nil
+		}
+	}
 	if _, isIface := asserted.Underlying().(*types.Interface); isIface {
 		if asserted.Underlying().(*types.Interface).NumMethods() == 0 {
 			return true, itf
